@@ -297,22 +297,41 @@ def h_einsum(equation, *operands):
     if len(operands) == 1 and isinstance(operands[0], (list, tuple)):
         operands = tuple(operands[0])
     eq = equation.replace(" ", "")
-    if "." in eq:
-        raise EngineUnsupported("einsum with ellipsis")
     lhs, rhs = eq.split("->") if "->" in eq else (eq, None)
     ins = lhs.split(",")
     ps = [payload(o) for o in operands]
-    if len(ins) != len(ps) or any(len(s) != p.ndim for s, p in zip(ins, ps)):
+    if len(ins) != len(ps):
+        raise EngineUnsupported("einsum operands do not match the equation")
+    # ellipsis: the leading (broadcast) dimensions get fresh upper-case labels, right-aligned
+    if "..." in eq:
+        nell = builtins.max(p.ndim - len(s_.replace("...", "")) for s_, p in zip(ins, ps) if "..." in s_)
+        names = "ABCDEFGHIJKLMNOPQRSTUVWXYZ"[:nell]
+        new_ins = []
+        for s_, p in zip(ins, ps):
+            if "..." in s_:
+                k = p.ndim - len(s_.replace("...", ""))
+                s_ = s_.replace("...", names[nell - k:])
+            new_ins.append(s_)
+        ins = new_ins
+        if rhs is None:
+            raise EngineUnsupported("einsum with ellipsis and implicit output")
+        rhs = rhs.replace("...", names)
+    if any(len(s_) != p.ndim for s_, p in zip(ins, ps)):
         raise EngineUnsupported("einsum operands do not match the equation")
     size = {}
-    for s, p in zip(ins, ps):
-        for ch, n in zip(s, p.shape):
+    for s_, p in zip(ins, ps):
+        for ch, n in zip(s_, p.shape):
+            if ch.isupper() and n == 1 and size.get(ch, 1) != 1:
+                continue  # broadcast dimension of size 1
+            if ch.isupper() and size.get(ch) == 1:
+                size[ch] = n
+                continue
             if size.setdefault(ch, n) != n:
                 raise RuntimeError("einsum(): operands do not broadcast with remapped shapes")
     if rhs is None:
         counts = {}
-        for s in ins:
-            for ch in s:
+        for s_ in ins:
+            for ch in s_:
                 counts[ch] = counts.get(ch, 0) + 1
         rhs = "".join(sorted(ch for ch, k in counts.items() if k == 1))
     summed = [ch for ch in size if ch not in rhs]
@@ -323,8 +342,8 @@ def h_einsum(equation, *operands):
         for sidx in np.ndindex(*[size[ch] for ch in summed]) if summed else [()]:
             env.update(zip(summed, sidx))
             prod = None
-            for s, p in zip(ins, ps):
-                x = p[tuple(env[ch] for ch in s)]
+            for s_, p in zip(ins, ps):
+                x = p[tuple(env[ch] if p.shape[i] != 1 else 0 for i, ch in enumerate(s_))]
                 prod = x if prod is None else el.mul(prod, x)
             terms.append(prod)
         out[oidx] = el.sum_(terms)
